@@ -425,6 +425,7 @@ type syncObj struct {
 	signals  int
 	running  bool
 	poolVals []Value
+	hbytes   []*Term
 }
 
 func (th *Thread) syncState(fr *Frame, v Value) *syncObj {
